@@ -85,6 +85,14 @@ Section Crypto.
     else if negb (bytes_eqb (ticket_tag t) (mac (mac_key key) (ticket_body t))) then None
     else unmarshal (ctr (enc_key key) (firstn 16 t) (skipn 16 (ticket_body t))).
 
+  (* the caller's ticket buffer after decryptTicket: the MAC is computed into a fresh buffer (mac.Sum(nil)),
+     so the received tag is never overwritten; the ciphertext is decrypted in place, only after the MAC
+     has verified *)
+  Definition ticket_buf_after (key t : list Z) : list Z :=
+    if blen t <? 48 then t
+    else if negb (bytes_eqb (ticket_tag t) (mac (mac_key key) (ticket_body t))) then t
+    else firstn 16 t ++ ctr (enc_key key) (firstn 16 t) (skipn 16 (ticket_body t)) ++ ticket_tag t.
+
   (* ---- checkForResumption ---- *)
   Record consts := mkConsts {
     k_ecdhe : Z; k_ecdsa : Z; k_tls12 : Z; k_rc4 : Z; k_chacha : Z; k_disable_rc4 : Z; k_only_rc4 : Z;
